@@ -665,11 +665,19 @@ func genDoc(t *rapid.T) *doc {
 	}
 	anchor := ref.CivilDay(anchorYear, 6, 15)
 	n := rapid.IntRange(1, 7).Draw(t, "people")
+	// (one document in 25 has a big family: 13..22 children in the first family)
+	bigFamily := rapid.IntRange(0, 24).Draw(t, "bigFamily") == 12
+	if bigFamily {
+		n = rapid.IntRange(16, 26).Draw(t, "bigPeople")
+	}
 	for i := 0; i < n; i++ {
 		d.People = append(d.People, &person{ID: fmt.Sprintf("I%d", i+1)})
 	}
 	// families: distinct roles inside a family; a sibling pair shares one family only
 	nf := rapid.IntRange(0, 3).Draw(t, "families")
+	if bigFamily && nf == 0 {
+		nf = 1
+	}
 	pairUsed := map[[2]int]bool{}
 	for f := 0; f < nf; f++ {
 		fam := &family{ID: fmt.Sprintf("F%d", f+1)}
@@ -685,6 +693,9 @@ func genDoc(t *rapid.T) *doc {
 		fam.Husb = take(8, "hasHusb")
 		fam.Wife = take(8, "hasWife")
 		nc := rapid.IntRange(0, 4).Draw(t, "nchildren")
+		if bigFamily && f == 0 {
+			nc = rapid.IntRange(13, n-3).Draw(t, "bigChildren")
+		}
 		var kids []int
 		for c := 0; c < nc && k < len(order); c++ {
 			cand := order[k]
@@ -864,6 +875,12 @@ func TestCheckWarnings(t *testing.T) {
 		}
 		if nexp >= 3 {
 			cls = append(cls, "multi-fault")
+		}
+		for _, f := range d.Families {
+			if len(f.Children) >= 13 {
+				cls = append(cls, "big-family:>=13-children")
+				break
+			}
 		}
 		s.Eval(harness.JSON(d), nt, cls...)
 		if nt {
